@@ -166,6 +166,9 @@ def finite_difference(blk: Module, fromsig: Union[Signal, Iterable[Signal]] = No
                 Sin.state = x
             else:
                 x0 = it[0].item()
+                if x0 == 0 and keep_zero_structure:
+                    it.iternext()
+                    continue
                 sf = np.abs(x0) if (relative_dx and np.abs(x0) != 0) else 1.0
                 Sin.state = x0 + dx*sf
 
